@@ -1030,7 +1030,7 @@ func c10ScratchReset(c *Ctx, rule string) {
 // last round's error only - the failures of all earlier elements vanish without a trace.
 func c10NoErrorOverwrittenInLoop(c *Ctx, rule string) {
 	n := 0
-	isErr := func(t types.Type) bool { return t.String() == "error" }
+	isErr := func(t types.Type) bool { return TStr(t) == "error" }
 	c.EachRootFunc(func(fn *ssa.Function) {
 		if fn.Pkg == nil || len(fn.Blocks) == 0 {
 			return
